@@ -16,9 +16,9 @@ func c15(tier string) int {
 		panic(err)
 	}
 	defer env.Close()
-	env.CheckAll(mapk.Programs(tier == "thorough", ""), []diffrun.Variant{diffrun.Plain})
+	env.CheckAll(append(mapk.Programs(tier == "thorough", ""), mapk.ConstKeyProgram()), []diffrun.Variant{diffrun.Plain, diffrun.Minified})
 	return finishDiff(env, "C15", tier, start,
-		"per key type (about 50 types composed from bool/ints/floats/complex/string/pointer/chan/interface/named types by arrays and structs) and an adversarial key set: ALL operation histories up to depth d over {insert k, delete k, read-modify-write k, range-deleting-others, range-inserting} replayed on a fresh map, every observable (len, lookup, comma-ok, range multiset) digested after every step; one line per (type, first two ops); key equality matrices, nil-map behaviour, unhashable dynamic keys; vs native Go",
+		"per key type (about 50 types composed from bool/ints/floats/complex/string/pointer/chan/interface/named types by arrays and structs) and an adversarial key set: ALL operation histories up to depth d over {insert k, delete k, read-modify-write k, range-deleting-others, range-inserting} replayed on a fresh map, every observable (len, lookup, comma-ok, range multiset) digested after every step; one line per (type, first two ops); key equality matrices, nil-map behaviour, unhashable dynamic keys; constant keys: for 10 key families (strings with non-ASCII / raw bytes / escapes, named strings, interface keys of 21 dynamic types, floats, 64-bit integers, runes, arrays, structs, bools, complex) every key is written as a constant expression and as a variable, entries made one way are read / tested / updated / deleted the other way, plus map literals and switch; plain and minified vs native Go",
 		[]string{"reference = native Go on the same source", "iteration order is never observed (order-insensitive digests)", "range-with-delete is skipped while a NaN entry is present (result depends on iteration order in Go itself)"},
 		nil)
 }
